@@ -20,7 +20,7 @@ RULE = ("argv tail run through both tools with random.seed(s) before each: every
 ASSUMPTIONS = ["vmon/tt.py: clause evaluator and bit-sliced pseudo-Boolean adder (self-checked against a naive evaluator)",
                "equal RNG state before both runs makes random families and graphs draw the same values"]
 REQUIRED = ["pairs_compared", "exact_pairs", "sampled_pairs", "pb_side_has_non_clause_constraints", "both_refused", "cli_seed_pairs",
-            "graph_file_pairs"]
+            "graph_file_pairs", "text_pairs", "text_pairs_with_power_of_two_many_clauses"]
 CASE_TIMEOUT = {"quick": 300, "thorough": 1800}
 
 
@@ -144,6 +144,13 @@ def workload(tier, seed):
     for lo in range(0, nr, 25):
         yield "cli_seed", {"lo": lo, "hi": lo + (8 if tier == "quick" else 25)}
     yield "files", {}
+    sizes = (256, 4096, 8192, 65536) if tier == "quick" else [1 << k for k in range(8, 18)] + [3 << 12, 3 << 13, 3 << 15, 5 << 12, 65535, 65537]
+    for N in sizes:
+        yield "text", {"tails": [["and", str(N), "0"], ["and", str(N // 2), str(N - N // 2)]], "rseed": seed + 1}
+    yield "text", {"tails": [["randkcnf", "3", "70", "65536"], ["randkcnf", "2", "40", "1024"], ["or", "4096", "4096"]], "rseed": seed + 2}
+    texts = [t for _, t in small()]
+    for lo in range(0, len(texts), 40):
+        yield "text", {"tails": texts[lo:lo + (10 if tier == "quick" else 40)], "rseed": seed + 3}
     m = len(realistic())
     for lo in range(0, m, 2):
         yield "realistic", {"lo": lo, "hi": lo + 2, "seeds": seeds[:1] if tier == "quick" else seeds[:3]}
@@ -159,6 +166,69 @@ def case_cli_seed(ctx, lo, hi):
         for cs in (0, 1, 5):
             ctx.count("cli_seed_pairs")
             compare(ctx, sub, tail, 1000 + cs, cap, 200, cli_seed=cs)
+
+
+def eval_rows(rows, true):
+    for terms, op, deg in rows:
+        v = sum(c for c, l in terms if (l > 0) == (abs(l) in true))
+        if not (v >= deg if op == ">=" else v == deg):
+            return False
+    return True
+
+
+def case_text(ctx, tails, rseed):
+    """What the two programs print: the DIMACS text of cnfgen and the OPB text of pbgen, read back by the reference
+    readers of C06 / C12 and compared on sampled assignments.  Includes formulas whose number of constraints is a power of
+    two or a multiple of one (buffered writers work in blocks of such sizes)."""
+    from ..cliharness import run_main
+    from ..refmodels import c06_dimacs, c12_opb
+    from ..refmodels.names import eval_many
+    for tail in tails:
+        label = " ".join(tail) + " [random.seed(%d) before]" % rseed
+        random.seed(rseed)
+        a = run_main("cnfgen", ["-q"] + list(tail))
+        random.seed(rseed)
+        b = run_main("pbgen", ["-q"] + list(tail))
+        ctx.count("text_pairs")
+        if a.exc is not None or b.exc is not None or a.rc != 0 or b.rc != 0:
+            if (a.rc, type(a.exc)) != (b.rc, type(b.exc)):
+                ctx.violation("%s:one-tool-refuses" % tail[0], "%s: cnfgen -> rc=%r %r, pbgen -> rc=%r %r" % (label, a.rc, a.exc, b.rc, b.exc))
+            else:
+                ctx.count("both_refused")
+            continue
+        try:
+            n, clauses = c06_dimacs.read(a.out)
+        except Exception as e:      # noqa: BLE001
+            ctx.violation("%s:text:cnfgen-output-unreadable" % tail[0], "%s: %r" % (label, e))
+            continue
+        T = c12_opb.read_opb(b.out)
+        if not T:
+            ctx.violation("%s:text:pbgen-output-unreadable" % tail[0], "%s: %r" % (label, T))
+            continue
+        if T.variables != n:
+            ctx.violation("%s:text:numvar" % tail[0], "%s: cnfgen prints %d variables, pbgen %d" % (label, n, T.variables))
+            continue
+        if len(clauses) in (1 << k for k in range(8, 20)) or any(len(clauses) % (1 << k) == 0 for k in range(12, 20)):
+            ctx.count("text_pairs_with_power_of_two_many_clauses")
+        r = ctx.rng("c08text", tuple(tail), rseed)
+        pool = [set(), set(range(1, n + 1))]
+        for _ in range(14):
+            p = r.choice([0.02, 0.2, 0.5, 0.8, 0.98])
+            pool.append({v for v in range(1, n + 1) if r.random() < p})
+        # an assignment satisfying the CNF when one is easy to get: unit clauses decide it
+        units = {c[0] for c in clauses if len(c) == 1}
+        pool.append({v for v in range(1, n + 1) if v in units or (-v not in units and r.random() < 0.5)})
+        va = eval_many(clauses, pool)
+        vb = [eval_rows(T.rows, t) for t in pool]
+        ctx.count("sampled_assignments", len(pool))
+        if va != vb:
+            j = next(j for j in range(len(pool)) if va[j] != vb[j])
+            ctx.violation("%s:text:sampled-models" % tail[0], "%s: an assignment satisfies the printed %s but not the printed %s "
+                          "(%d clauses vs %d constraints)" % (label, "CNF" if va[j] else "OPB", "OPB" if va[j] else "CNF", len(clauses), len(T.rows)),
+                          true_vars=sorted(pool[j])[:40])
+            continue
+        ctx.judged(("text", tuple(tail), rseed), nontrivial=n > 0,
+                   sample={"argv": tail, "variables": n, "clauses": len(clauses), "opb_rows": len(T.rows), "satisfying_samples": sum(va)})
 
 
 def case_files(ctx):
